@@ -27,9 +27,9 @@ def build_and_test(wt):
     rc, out = sh("cmake -S . -B _b -G Ninja -DCMAKE_BUILD_TYPE=RelWithDebInfo >/dev/null && cmake --build _b 2>&1 | tail -3", cwd=wt)
     if rc != 0:
         return False, "build failed: " + out[-500:]
-    rc, out = sh("ctest --test-dir _b -j8 --timeout 900 2>&1 | tail -5", cwd=wt)
-    ok = "100% tests passed" in out
-    return ok, out.strip().splitlines()[-3:] if not ok else "39/39"
+    rc, out = sh("ctest --test-dir _b -j8 --timeout 900 2>&1", cwd=wt)
+    ok = "100% tests passed, 0 tests failed out of 39" in out
+    return ok, ("39/39 passed" if ok else out.strip().splitlines()[-8:])
 
 
 def main():
@@ -49,7 +49,7 @@ def main():
             res["error"] = out
             return res
         demo = os.path.join(d, "demo.sh")
-        if "--skip-base" not in sys.argv:
+        if "--skip-base" not in sys.argv and "--checks-only" not in sys.argv:
             ok, info = build_and_test(wt)
             res["base_suite"] = info
             rc, out = sh("sh %s %s/_b" % (demo, wt), cwd=wt)
@@ -58,11 +58,12 @@ def main():
         if rc != 0:
             res["error"] = "patch does not apply: " + out
             return res
-        ok, info = build_and_test(wt)
-        res["mut_suite"] = info
-        rc, out = sh("sh %s %s/_b" % (demo, wt), cwd=wt)
-        res["mut_demo_rc"] = rc
-        res["mut_demo_tail"] = out.strip().splitlines()[-3:]
+        if "--checks-only" not in sys.argv:
+            ok, info = build_and_test(wt)
+            res["mut_suite"] = info
+            rc, out = sh("sh %s %s/_b" % (demo, wt), cwd=wt)
+            res["mut_demo_rc"] = rc
+            res["mut_demo_tail"] = out.strip().splitlines()[-3:]
         shutil.rmtree(os.path.join(wt, "_b"), ignore_errors=True)
         checks = {}
         for p in props:
